@@ -137,7 +137,7 @@ def depth_probes(tier):
 	return out
 
 
-def gen_cases(rng, tier):
+def _gen_cases(rng, tier):
 	cases = systematic(rng, tier)
 	for kind, label, s in depth_probes(tier):
 		cases.append({'k': 'depth', 'kind': kind, 'label': label, 'n': len(s), 's': s.hex()})
@@ -162,6 +162,15 @@ def gen_cases(rng, tier):
 def _chunk_stream(kind, n):
 	head = b'POST / HTTP/1.1\r\nHost: x\r\nTransfer-Encoding: chunked\r\n\r\n' if kind == 'server' else b'HTTP/1.1 200 OK\r\nTransfer-Encoding: chunked\r\n\r\n'
 	return head + b'1\r\na\r\n' * n + b'0\r\n\r\n'
+
+
+def gen_cases(rng, tier):
+	cases = _gen_cases(rng, tier)
+	# one in five client-side cases is read by a client machine whose request is a CONNECT (its successful responses lose their framing fields)
+	for c in cases:
+		if c.get('kind') == 'client' and rng.random() < .2:
+			c['kind'] = 'client-connect'
+	return cases
 
 
 def observe(c):
